@@ -239,6 +239,9 @@ func replay(t *testing.T, res *engine.Result, rp replayT) {
 	case "d":
 		replayD(t, res, rp)
 		return
+	case "e":
+		replayE(t, res, rp)
+		return
 	default:
 		t.Fatalf("unknown part %q", rp.Part)
 	}
